@@ -60,6 +60,7 @@ import dataclasses
 from typing import Any, Dict, List, Optional, Tuple
 
 import hippolyzer.lib.base.message.circuit as circuit_mod
+import hippolyzer.lib.client.hippo_client as hippo_client_mod
 from hippolyzer.lib.base.datatypes import UUID
 from hippolyzer.lib.base.helpers import create_logged_task
 from hippolyzer.lib.base.message.circuit import ReliableResendInfo
@@ -84,6 +85,7 @@ CARRIER_BASE = 100
 F_ZERO, F_REL, F_RESENT, F_ACK = 0x80, 0x40, 0x20, 0x10
 EPS = 1e-6
 POLL_SLACK = 0.5  # HippoClient._attempt_resends sleeps 0.5 s between polls; lateness up to one poll is not a defect
+MAX_SR, MAX_SU = 2, 1
 BUDGET = next(f.default for f in dataclasses.fields(ReliableResendInfo) if f.name == "tries_left")
 NAME = {"chat": "ChatFromSimulator", "ping": "StartPingCheck"}
 
@@ -165,10 +167,28 @@ class _Client(HippoClient):
 
 _PREV_LOOP: Optional[VLoop] = None
 
+# HippoClientProtocol.__init__ parses message.xml (1.5 ms, 75 % of building a world).  The parsed table is read-only
+# (validate_udp_msg only looks names up), so all worlds of one process share one instance.
+_REAL_MDX = hippo_client_mod.MessageDotXML
+_MDX_CACHE: List[Any] = []
+
+
+def _shared_message_dot_xml(*args, **kwargs):
+    if args or kwargs:
+        return _REAL_MDX(*args, **kwargs)
+    if not _MDX_CACHE:
+        _MDX_CACHE.append(_REAL_MDX())
+    return _MDX_CACHE[0]
+
+
+if getattr(hippo_client_mod.MessageDotXML, "__name__", "") != "_shared_message_dot_xml":
+    hippo_client_mod.MessageDotXML = _shared_message_dot_xml
+
 
 class World:
-    def __init__(self):
+    def __init__(self, cfg: str = "solo"):
         global _PREV_LOOP
+        self.cfg = cfg
         self.loop = VLoop()
         self.ctx = install(self.loop, clock_modules=[circuit_mod])
         if _PREV_LOOP is not None and not _PREV_LOOP.is_closed():
@@ -196,6 +216,8 @@ class World:
         self.log: List[Tuple[str, str, str, int]] = []
         for level, handler in (("session", self.session.message_handler), ("region", self.region.message_handler)):
             for key in ("ChatFromSimulator", "StartPingCheck", "*"):
+                if key == "StartPingCheck" and level == "region" and cfg == "solo":
+                    continue  # cfg "solo": the built-in async handler is the only subscriber of that region-level Event
                 handler.subscribe(key, self._make_sub(level, "*" if key == "*" else "name"))
         self.loop.run_ready()  # start the resend task (first poll, then sleeping)
         # --- reference model -----------------------------------------------------------------------------
@@ -211,6 +233,8 @@ class World:
         self.ping_owed: Dict[int, int] = {}
         self.ping_seen: Dict[int, int] = {}
         self.cursor = 0
+        self.log_cursor = 0
+        self.n_sr = 0
         self.dup_receipts = 0
         self.retransmissions = 0
         self.completions = 0
@@ -224,47 +248,73 @@ class World:
 class Harness:
     copyable = False
 
-    def __init__(self, mute=()):
+    def __init__(self, cfg: str = "solo", mute=(), max_sr: int = MAX_SR, max_su: int = MAX_SU):
+        assert cfg in ("solo", "shared")
+        self.cfg = cfg
+        self.kinds = ("chat", "ping") if cfg == "solo" else ("ping",)
         self.mute = set(tuple(m) for m in mute)
+        self.max_sr, self.max_su = max_sr, max_su
 
     def fresh(self) -> World:
-        return World()
+        return World(self.cfg)
+
+    def subs_for(self, level: str, name: str):
+        if name not in NAME.values():
+            return ("*",)
+        if name == "StartPingCheck" and level == "region" and self.cfg == "solo":
+            return ("*",)
+        return ("name", "*")
 
     # ---- alphabet ---------------------------------------------------------------------------------------
     def enabled(self, w: World):
         evs: List[tuple] = []
+        missing_below = [p for p in PEER_IDS if p < w.max_peer and p not in w.peer]
+        new_ids = [p for p in (w.max_peer + 1, w.max_peer + 2) if p in PEER_IDS] + missing_below[-1:]
         for p in PEER_IDS:
             if p in w.peer:
                 kind, rel = w.peer[p]
-                for resent in ((0, 1) if rel else (0,)):
-                    for defer in ((0, 1) if kind == "ping" else (0,)):
-                        evs.append(("R", p, kind, rel, resent, defer, 1))
-            else:
+                if kind == "chat":
+                    variants = ((0, 0), (1, 0)) if rel else ((0, 0),)
+                else:
+                    variants = ((0, 0), (1, 0), (1, 1)) if rel else ((0, 0), (0, 1))
+                for resent, defer in variants:
+                    evs.append(("R", p, kind, rel, resent, defer, 1))
+            elif p in new_ids:
                 inorder = (p == w.max_peer + 1)
-                for kind in ("chat", "ping"):
-                    for rel in (1, 0):
-                        for resent in ((0, 1) if rel else (0,)):
-                            for defer in ((0, 1) if kind == "ping" else (0,)):
-                                dev = 0 if (inorder and not resent and not defer) else 1
-                                evs.append(("R", p, kind, rel, resent, defer, dev))
+                for kind in (self.kinds if inorder else self.kinds[:1]):
+                    # out-of-order arrival matters only through the id (dedupe), so only one kind arrives out of order
+                    # (rel, resent, defer): RESENT on a first arrival only on chat (the receive path never looks at the
+                    # kind and the flag together); deferral only where a task is spawned (ping)
+                    variants = [(1, 0, 0), (0, 0, 0)]
+                    if inorder:
+                        variants += [(1, 1, 0)] if kind == "chat" or len(self.kinds) == 1 else []
+                        variants += [(1, 0, 1), (0, 0, 1)] if kind == "ping" else []
+                    for rel, resent, defer in variants:
+                        dev = 0 if (inorder and not resent and not defer) else 1
+                        evs.append(("R", p, kind, rel, resent, defer, dev))
         outstanding = [r["id"] for r in w.rsends if r["status"] == "pending"]
         idsets: List[Tuple[tuple, int]] = []
         n = len(outstanding)
         for mask in range(1, 1 << n):
             idsets.append((tuple(outstanding[i] for i in range(n) if mask >> i & 1), 0))
         stale = self.stale_id(w)
-        if stale is not None:
+        if stale is not None and outstanding:
             idsets.append(((stale,), 1))
         dup_carrier = min((p for p, (k, rel) in w.peer.items() if rel), default=None)
         for ids, dev in idsets:
             evs.append(("AP", ids, dev))
             evs.append(("AA", 0, ids, dev))
-            if dup_carrier is not None and not dev:
+            if dup_carrier is not None and not dev and len(ids) == n:
                 evs.append(("AA", dup_carrier, ids, 1))
-        evs.append(("AP", (w.circuit.packet_id_base if w.last_issued is None else w.last_issued + 1,), 1))  # future id
-        evs.append(("SR",))
-        evs.append(("SU",))
-        evs += [("T", "short"), ("T", "past"), ("T", "long")]
+        if w.n_sr < self.max_sr:
+            # ack for the id the client will issue next, then (maybe) the send itself
+            evs.append(("AP", (w.circuit.packet_id_base if w.last_issued is None else w.last_issued + 1,), 1))
+            evs.append(("SR",))
+        if w.n_sends - w.n_sr < self.max_su:
+            evs.append(("SU",))
+        # time matters only through the resend poll; before any reliable send one probe tick is kept (it must be a no-op)
+        # and after the last one finished one probe tick is kept as well (nothing may be transmitted again)
+        evs += [("T", "short"), ("T", "past"), ("T", "long")] if outstanding else [("T", "past")]
         return evs
 
     @staticmethod
@@ -285,10 +335,13 @@ class Harness:
              v.completed.done()) for k, v in c.unacked_reliable.items()))
         ready = sum(1 for h in w.loop._ready if not h._cancelled)
         timers = tuple(sorted(round(h._when - now, 4) for h in w.loop._scheduled if not h._cancelled))
-        sends = tuple((r["id"], r["status"], len(r["tx"]), round(now - r["tx"][-1], 4), r["fut"].done())
+        # a finished send can only matter through "is it ever transmitted again" -> its age / try count are dropped;
+        # the carrier counter only picks the (always fresh, never tracked) id of the next ack carrier -> dropped
+        sends = tuple((r["id"], r["status"], r["fut"].done()) +
+                      ((len(r["tx"]), round(now - r["tx"][-1], 4)) if r["status"] == "pending" else ())
                       for r in w.rsends)
         return (tuple(c.seen_reliable), c.packet_id_base, unacked, c.is_alive, ready, timers,
-                tuple(sorted(w.peer.items())), w.max_peer, w.carriers, sends, w.n_sends, w.last_issued,
+                tuple(sorted(w.peer.items())), w.max_peer, sends, w.n_sends - w.n_sr, w.n_sr, w.last_issued,
                 self.stale_id(w), tuple(sorted(w.ack_debt)), tuple(sorted(w.ping_owed.items())),
                 tuple(sorted(w.ping_seen.items())))
 
@@ -383,8 +436,19 @@ class Harness:
                              f"send_reliable's future for id {r['id']} is done ({exc!r}) although no ack carrying "
                              f"{r['id']} arrived")
 
+    def account_log(self, w: World):
+        """Subscriber invocations outside a datagram_received call (i.e. from a task) are never expected: the sync
+        subscribers are invoked synchronously, exactly the expected number of times (checked in deliver)."""
+        for level, which, name, pid in w.log[w.log_cursor:]:
+            rel = w.peer[pid][1] if pid in w.peer else 0
+            self.bad(w, "dispatch-once" if rel else "unreliable-delivery", "Event.notify:async-task",
+                     f"{name} id {pid} ({'reliable' if rel else 'unreliable'}): {level}-level sync subscriber [{which}] "
+                     f"invoked once more from a task, after datagram_received had already invoked it")
+        w.log_cursor = len(w.log)
+
     def end_of_step(self, w: World, quiescent: bool):
         self.drain_out(w)
+        self.account_log(w)
         self.check_futures(w)
         now = w.loop.time()
         for r in w.rsends:
@@ -427,6 +491,7 @@ class Harness:
             if r["status"] == "pending" and r["id"] in acks:
                 r["status"] = "acked"
                 w.completions += 1
+        self.account_log(w)
         n0 = len(w.log)
         try:
             w.proto.datagram_received(data, ADDR)
@@ -434,9 +499,10 @@ class Harness:
             self.bad(w, "no-exception", "HippoClientProtocol.datagram_received", f"{name} id {pid}: raised {e!r}")
         self.check_futures(w, form)
         new = w.log[n0:]
+        w.log_cursor = len(w.log)
         expect = 1 if (not rel or first) else 0
         for level, site in (("session", SITE_SESSION), ("region", SITE_REGION)):
-            for which in (("name", "*") if name in NAME.values() else ("*",)):
+            for which in self.subs_for(level, name):
                 got = sum(1 for e in new if e == (level, which, name, pid))
                 if got == expect:
                     continue
@@ -496,6 +562,7 @@ class Harness:
         elif kind in ("SR", "SU"):
             w.n_sends += 1
             reliable = kind == "SR"
+            w.n_sr += int(reliable)
             msg = Message(
                 "ChatFromViewer",
                 Block("AgentData", SessionID=w.session.id, AgentID=w.session.agent_id),
@@ -550,19 +617,33 @@ def run(run: Run):
         f"retry budget {BUDGET} read from ReliableResendInfo.tries_left default, interval from Circuit.resend_every",
         "outgoing datagrams are read with an independent header/PacketAck decoder; incoming ones are encoded by hmc.refwire",
     ]
-    h = Harness()
-    explore.bfs(run, h, depth=depth, dev_bound=devb, label="all-clauses ")
-    found = sorted({(v["clause"], v["site"]) for v in run.violations})
-    if found:
-        # second pass: the explorer never extends a violating history, so explore what lies behind the ones found
-        h2 = Harness(mute=found)
-        explore.bfs(run, h2, depth=depth, dev_bound=devb, label="behind-known-violations ")
-        run.coverage_extra["muted_in_second_pass"] = [list(f) for f in found]
+    run.assumptions.append(
+        f"at most {MAX_SR} send_reliable and {MAX_SU} unreliable client sends per history; subscriber configurations: "
+        "'solo' (region-level StartPingCheck Event holds only the built-in async handler; chat+ping alphabet) and "
+        "'shared' (a sync region-level StartPingCheck subscriber shares that Event; ping-only alphabet)")
+    muted_all = {}
+    for cfg in ("solo", "shared"):
+        n0, keys0 = len(run.violations), dict(run._viol_keys)
+        explore.bfs(run, Harness(cfg), depth=depth, dev_bound=devb, label=f"cfg={cfg} all-clauses ")
+        found = sorted(k for k, n in run._viol_keys.items() if n > keys0.get(k, 0))
+        if found:
+            # second pass: the explorer never extends a violating history, so explore what lies behind the ones found
+            explore.bfs(run, Harness(cfg, mute=found), depth=depth, dev_bound=devb,
+                        label=f"cfg={cfg} behind-found-violations ")
+            muted_all[cfg] = [list(f) for f in found]
+        for v in run.violations[n0:]:
+            v["witness"]["cfg"] = cfg
+    run.coverage_extra["muted_in_second_pass"] = muted_all
     run.coverage_extra["depth"] = depth
     run.coverage_extra["deviation_bound"] = devb
     run.coverage_extra["retry_budget"] = BUDGET
-    explore.minimise_run_violations(run, Harness())  # replay applies every step, muting is only an explorer concern
+    for v in run.violations:  # shrink witnesses (replay applies every step; muting is only an explorer concern)
+        try:
+            small = explore._minimise_tuples(Harness(v["witness"]["cfg"]), v["witness"]["history"], v["clause"], v["site"])
+            v["witness"]["history"] = [list(e) for e in small]
+        except Exception as e:  # best effort
+            run.notes.append(f"minimise failed: {e!r}")
 
 
 def replay(witness):
-    return explore.replay_history(Harness(), witness["history"])
+    return explore.replay_history(Harness(witness.get("cfg", "solo")), witness["history"])
